@@ -26,10 +26,11 @@ CAST_PREC = 10
 
 
 class Parser(object):
-    def __init__(self, path, toks, lo=0, hi=None):
+    def __init__(self, path, toks, lo=0, hi=None, loops=False):
         self.path, self.toks = path, toks
         self.p = lo
         self.hi = len(toks) if hi is None else hi
+        self.loops = loops        # control-code mode (rsctl.py): `for`/`while`/`loop`/`break`/`continue` are parsed
 
     # ------------------------------------------------------------------ helpers
     def err(self, msg, at=None):
@@ -271,6 +272,9 @@ class Parser(object):
                 if self.at("_"):
                     self.p += 1
                     params.append("_")
+                elif self.loops and self.at("("):
+                    lo, hi = self.balanced()        # tuple pattern |(a, _)| (control-code mode only)
+                    params += [t[1] for t in self.toks[lo:hi] if t[0] == "id" and t[1] not in ("mut", "ref", "_")]
                 else:
                     params.append(self.ident())
                 if self.eat(":"):
@@ -410,6 +414,8 @@ class Parser(object):
             if not (self.at(";") or self.at("}") or self.at(")") or self.at(",")):
                 e = self.expr()
             return self.node("Return", i, e=e)
+        if self.loops and s in ("for", "while", "loop", "break", "continue"):
+            return self.loop_expr()
         if s in KEYWORDS_NO_EXPR:
             self.err("`%s` is outside the supported expression subset" % s)
         # path
@@ -487,6 +493,44 @@ class Parser(object):
             els = self.if_expr() if self.at("if") else self.block()
         return self.node("If", i, c=c, then=then, els=els)
 
+    def loop_expr(self):
+        """control-code mode only: for PAT in E { .. } | while E { .. } | loop { .. } | break | continue"""
+        i = self.p
+        s = self.peek()[1]
+        self.p += 1
+        if s == "for":
+            a, depth = self.p, 0
+            while not (depth == 0 and self.at("in")):
+                t = self.peek()
+                if t[0] == "eof" or (t[0] == "p" and t[1] in ("{", ";")):
+                    self.err("for: expected `in`", a)
+                if t[0] == "p" and t[1] in ("(", "["):
+                    depth += 1
+                elif t[0] == "p" and t[1] in (")", "]"):
+                    depth -= 1
+                self.p += 1
+            b = self.p
+            pat = render(self.toks[a:b])
+            names = [t[1] for t in self.toks[a:b] if t[0] == "id" and t[1] not in ("mut", "ref") and t[1][0].islower()]
+            self.expect("in")
+            e = self.expr(no_struct=True)
+            body = self.block()
+            return self.node("For", i, pat=pat, names=names, e=e, body=body)
+        if s == "while":
+            if self.at("let"):
+                self.err("`while let` is outside the supported subset")
+            c = self.expr(no_struct=True)
+            body = self.block()
+            return self.node("While", i, c=c, body=body)
+        if s == "loop":
+            body = self.block()
+            return self.node("Loop", i, body=body)
+        if s == "break":
+            if not (self.at(";") or self.at("}") or self.at(",")):
+                self.err("`break` with a label or a value is outside the supported subset")
+            return self.node("Break", i)
+        return self.node("Continue", i)
+
     def match_expr(self):
         i = self.p
         self.expect("match")
@@ -533,7 +577,7 @@ class Parser(object):
                 stmts.append(self.node("ExprStmt", si, e=e, semi=True))
             elif self.at("}"):
                 tail = e
-            elif e.k in ("If", "IfLet", "Match", "Block"):
+            elif e.k in ("If", "IfLet", "Match", "Block", "For", "While", "Loop"):
                 stmts.append(self.node("ExprStmt", si, e=e, semi=False))
             else:
                 self.err("expected `;` or `}` after expression")
